@@ -570,6 +570,10 @@ fn two_hop_bounds(c: &Call, view: &crate::sim::IxView, idx: usize, cov: &mut Cov
         if !dir_ok {
             out.push(viol("C03", "price_moved_against_direction", idx, format!("two-hop leg {}: price {} -> {} (a_to_b={})", name, leg.pre.sqrt_price, leg.post.sqrt_price, leg.a_to_b)));
         }
+        let tick_dir_ok = if leg.a_to_b { leg.post.tick_current_index <= leg.pre.tick_current_index } else { leg.post.tick_current_index >= leg.pre.tick_current_index };
+        if !tick_dir_ok {
+            out.push(viol("C03", "tick_moved_against_direction", idx, format!("two-hop leg {}: current tick {} -> {} (a_to_b={})", name, leg.pre.tick_current_index, leg.post.tick_current_index, leg.a_to_b)));
+        }
         if leg.post.sqrt_price < MIN_SQRT_PRICE || leg.post.sqrt_price > MAX_SQRT_PRICE {
             out.push(viol("C03", "price_out_of_bounds", idx, format!("two-hop leg {}: price {}", name, leg.post.sqrt_price)));
         }
@@ -595,6 +599,19 @@ fn two_hop_bounds(c: &Call, view: &crate::sim::IxView, idx: usize, cov: &mut Cov
                 if a.a_to_b_two { c.a("token_owner_account_two_b") } else { c.a("token_owner_account_two_a") },
             )
         };
+        // the v1 form routes the intermediate token through the trader's own account: whatever leg one pays in there, leg two
+        // takes out again - a route never spends the trader's own holdings of the intermediate token, which no stated maximum
+        // would bound (plain mints; a cyclic or re-entrant route names the account elsewhere too and is not judged)
+        if c.name() == "two_hop_swap" && one.plain && two.plain {
+            let mid_one = if a.a_to_b_one { c.a("token_owner_account_one_b") } else { c.a("token_owner_account_one_a") };
+            let mid_two = if a.a_to_b_two { c.a("token_owner_account_two_a") } else { c.a("token_owner_account_two_b") };
+            if mid_one == mid_two && mid_one != in_acct && mid_one != out_acct {
+                let d = bal_delta(view.pre, view.post, &mid_one);
+                if d != 0 {
+                    out.push(viol("C03", "intermediate_token_spent", idx, format!("two-hop ({}): the trader's own balance of the intermediate token changed by {:+} - leg one paid in less (or more) than leg two took out", if a.is_input { "exact-in" } else { "exact-out" }, d)));
+                }
+            }
+        }
         if in_acct != out_acct {
             let paid = -bal_delta(view.pre, view.post, &in_acct);
             let got = bal_delta(view.pre, view.post, &out_acct);
@@ -684,6 +701,20 @@ impl Monitor for C03 {
             let dir_ok = if a.a_to_b { o.post.sqrt_price <= o.pre.sqrt_price } else { o.post.sqrt_price >= o.pre.sqrt_price };
             if !dir_ok {
                 out.push(viol("C03", "price_moved_against_direction", ev.idx, format!("price {} -> {} (a_to_b={})", o.pre.sqrt_price, o.post.sqrt_price, a.a_to_b)));
+            }
+            // the current tick is part of the pool's price: it moves with the trade, never against it (not even by the one
+            // tick between "on the tick" and "just crossed it" when the price itself does not move), and it stays the tick of
+            // the price - or, after a downward crossing that ended exactly on a tick, the one below
+            let tick_dir_ok = if a.a_to_b { o.post.tick_current_index <= o.pre.tick_current_index } else { o.post.tick_current_index >= o.pre.tick_current_index };
+            if !tick_dir_ok {
+                out.push(viol("C03", "tick_moved_against_direction", ev.idx, format!("current tick {} -> {} in an {} swap (price {} -> {})", o.pre.tick_current_index, o.post.tick_current_index, if a.a_to_b { "a_to_b" } else { "b_to_a" }, o.pre.sqrt_price, o.post.sqrt_price)));
+            }
+            if (MIN_SQRT_PRICE..=MAX_SQRT_PRICE).contains(&o.post.sqrt_price) {
+                let t = model::tick_of_sqrt_price(o.post.sqrt_price);
+                let on_tick = model::sqrt_price_of_tick(t) == o.post.sqrt_price;
+                if o.post.tick_current_index != t && !(on_tick && o.post.tick_current_index == t - 1) {
+                    out.push(viol("C03", "tick_is_not_the_tick_of_the_price", ev.idx, format!("after the swap the pool's price {} lies in tick {} but the current tick reads {}", o.post.sqrt_price, t, o.post.tick_current_index)));
+                }
             }
             if o.post.sqrt_price < MIN_SQRT_PRICE || o.post.sqrt_price > MAX_SQRT_PRICE {
                 out.push(viol("C03", "price_out_of_bounds", ev.idx, format!("price {}", o.post.sqrt_price)));
